@@ -4,5 +4,5 @@ set -e
 WORK="$1"; HERE="$(cd "$(dirname "$0")" && pwd)"; . "$HERE/lib.sh"
 build_rewriter "$WORK"
 mkdir -p "$WORK/ov"
-"$WORK/verif-rewrite" -out "$WORK/ov" -sched p2p >&2
+"$WORK/verif-rewrite" -out "$WORK/ov" -repo "${VERIF_REPO:-/repo}" -shims "$HERE/../shim" -sched p2p >&2
 echo "-overlay $WORK/ov/overlay.json"
